@@ -608,6 +608,23 @@ def _f_fs_spec_doubled_brace(c):
     return False
 
 
+def _f_fs_triple_middle_quote(c):
+    # triple-quoted f-string: a literal part that contains a backslash escape and ends with the
+    # delimiter's own quote character
+    stack = []
+    for t in c.toks:
+        if t.type == getattr(tokenize, "FSTRING_START", -1):
+            stack.append(t.string)
+        elif t.type == getattr(tokenize, "FSTRING_END", -1) and stack:
+            stack.pop()
+        elif t.type == getattr(tokenize, "FSTRING_MIDDLE", -1) and stack:
+            q = stack[-1]
+            if (q.endswith('"""') or q.endswith("'''")) and "r" not in q.lower()[:-3] and "\\" in t.string \
+                    and t.string.endswith(q[-1]):
+                return True
+    return False
+
+
 FINDINGS = {
     # id: (kinds, detail regex, feature, example, what)
     "C01-F01": (("tree-differs",), r"AnnAssign\.simple", _f_annassign_simple, "self.x: int = 1\n",
@@ -690,6 +707,8 @@ FINDINGS = {
                 "a list display whose only element is a parenthesised generator expression is parsed as a list comprehension"),
     "C01-F40": (("tree-differs", "reject"), r"", _f_fs_spec_doubled_brace, "f'{a:{{}}}'\n",
                 "a nested replacement field inside a format spec whose expression is a {...} display (CPython reads `{a:{{}}}` that way) is parsed differently"),
+    "C01-F41": (("tree-differs",), r"JoinedStr", _f_fs_triple_middle_quote, "f\"\"\"\\n\"{b}\"\"\"\n",
+                "in a triple-quoted f-string a literal part that ends with the delimiter's quote character (right before a replacement field) keeps its backslash escapes undecoded"),
 }
 
 
